@@ -1,15 +1,17 @@
 """C07 - Evaluation is total and recoverable (structural clauses; DESIGN.md section 2, C07)."""
 import re
 
-from kern import (CallGraph, branch_edges, calls_by_name, callers, origins, top_fn)
+from kern import (CallGraph, branch_edges, calls_by_name, callers, origins, short_fn, top_fn)
 
 DESCRIPTION = ("C07 clauses decided: R1 call-stack/frame state is restored on every normal path "
                "(with_call_stack, eval_module, alloca_frame) and CheapCallStack push/pop have no other callers; "
                "R2 no vtable operation recurses natively without passing a depth guard (K11); "
                "R3 interpreter errors leave run_block only through the span-attaching wrapper; "
-               "R4 panicking RefCell::borrow_mut on dict/set payloads only in the unchecked accessors; "
+               "R4 panicking RefCell::borrow_mut on dict/set payloads only in the unchecked accessors, and no dispatch "
+               "that can reach a panicking borrow while a DictMut/SetMut is live (R4b, reviewed table); "
                "R5 no unwrap of a value type-test in natives/StarlarkValue impls outside the reviewed table; "
-               "R6 bytecode-writer stack/loop counters are balanced on every path.")
+               "R6 bytecode-writer stack/loop counters are balanced on every path; R7 no overflow-checked negation of "
+               "a value-derived signed integer.")
 NOT_DECIDED = ("panics from arithmetic/index arithmetic in builtins, `as` truncations, spans lying inside the right "
                "file: runtime values")
 
@@ -222,6 +224,119 @@ def r4_borrows(ctx, F):
                   "a program mutating while iterating would panic instead of getting an error", fn=f, line=c.line)
 
 
+# C07.R4b reviewed table: dispatching calls made while a DictMut/SetMut (live RefMut) is held.
+# key = "<where>:<callee short>:<receiver origin>" -> reason
+LIVE_BORROW_TABLE = {
+    "stmt::bit_or_assign:DictRef::from_value:param":
+        "guarded by `lhs.ptr_eq(rhs)`: the right operand is a different object than the borrowed dict",
+    "dict.update:DictRef::from_value:agg+call:map":
+        "x.update(x) is rewritten to None before the borrow (ptr_eq test): `pairs` is a different object",
+    "dict.update:Value::iterate:agg+call:map":
+        "iterating `pairs` (a different object than `this`, see above); iterate of a container borrows only itself",
+    "set.update:SetFromValue::from_value:param":
+        "guarded by `other.ptr_eq(this)` early return; elements are hashed, never iterated",
+    "set.update:Value::iterate:call:get":
+        "guarded by `other.ptr_eq(this)` early return; iterate of a container borrows only itself",
+}
+
+
+def r4b_live_borrow(ctx, F):
+    """no call that can reach a panicking RefCell borrow of a dict/set payload while a DictMut/SetMut is live"""
+    from kern import natives
+    cg = CallGraph(F, expand="value")
+    PB = re.compile(r"RefCell::<values::types::(dict::value::Dict|set::value::SetData)<'_>>::(borrow|borrow_mut)$")
+    src = {f.uid for f in F.fns.values() for c in f.calls if PB.search(c.full)}
+    ctx.floor("C07.R4b", "functions with a panicking borrow of a dict/set payload", len(src), 6)
+    rev = cg.rev()
+    haz = set()
+    st = list(src)
+    while st:
+        n = st.pop()
+        if n in haz:
+            continue
+        haz.add(n)
+        st.extend(rev.get(n, ()))
+    nat = {}
+    for n in natives(F):
+        if n.impl is not None:
+            ty = re.search(r"(\w+?)_METHODS_STATICS", n.builder.qpath)
+            nat[n.impl.uid] = ("%s.%s" % (ty.group(1).lower(), n.name)) if ty else n.name
+    ACQ = re.compile(r"(dict::refs::DictMut::<'v>::from_value|set::refs::SetMut::<'v>::from_value|"
+                     r"dict::value::Dict::<'v>::from_value_unchecked_mut)$")
+    MUT_TY = re.compile(r"^(values::types::dict::refs::DictMut<|values::types::set::refs::SetMut<|"
+                        r"std::cell::RefMut<'_, values::types::(dict|set))")
+    holders = 0
+    for f in F.fns.values():
+        acq = [c for c in f.calls if ACQ.search(c.name) and c.bb not in f.cleanup]
+        if not acq:
+            continue
+        holders += 1
+        mutlocals = {l for l, t in f.locals.items() if MUT_TY.search(t)}
+        dropb = {b for b, t in f.terms.items() if t[0] == "drop" and t[1] in mutlocals}
+        for c in f.calls:  # explicit mem::drop(me)
+            if re.search(r"std::mem::drop$", c.name) and c.args and re.sub(r"^(move|copy) ", "", c.args[0]) in mutlocals:
+                dropb.add(c.bb)
+        where = nat.get(f.uid) or re.sub(r"<.*?>", "", top_fn(F, f).qpath).split("::", 3)[-1]
+        where = where.replace("eval::compiler::", "")
+        n_inst = 0
+        for a in acq:
+            live = f.reach(list(f.succs(a.bb)), cut_blocks=dropb)
+            for c in f.calls:
+                if c.bb not in live or c.bb in f.cleanup or c is a or c.indirect:
+                    continue
+                if c.callee_uid() not in haz:
+                    continue
+                short = "::".join(re.sub(r"::<[^>]*>", "", c.name).split("::")[-2:])
+                os_ = origins(f, c.args[0]) if c.args else set()
+                ok = sorted({o[0] if o[0] != "call" else "call:" + re.sub(r"::<[^>]*>", "", o[1].name).split("::")[-1]
+                             for o in os_})
+                key = "%s:%s:%s" % (where, short, "+".join(ok))
+                n_inst += 1
+                reason = LIVE_BORROW_TABLE.get(key)
+                ctx.check(reason is not None, "C07.R4b", key,
+                          "reviewed: " + (reason or ""),
+                          "`%s` can reach a panicking RefCell::borrow of a dict/set payload while this function "
+                          "holds a live mutable borrow (DictMut/SetMut): if the operand aliases the borrowed "
+                          "container the process panics with 'already mutably borrowed' instead of returning an error"
+                          % c.name, fn=f, line=c.line)
+        if n_inst == 0:
+            ctx.ok("C07.R4b", "holder:" + where, "no dispatching call while the mutable borrow is live")
+    ctx.floor("C07.R4b", "functions acquiring DictMut/SetMut", holders, 10)
+
+
+VALUE_SRC = re.compile(r"(unpack_param|unpack_value|unpack_named_param|UnpackValue|unpack_i32|unpack_inline_int|"
+                       r"unpack_int|to_i32|to_int|InlineInt::to_i32|StarlarkInt|InlineInt)")
+
+
+def r7_negation(ctx, F):
+    """no overflow-checked negation (`-x`, panics for MIN in debug builds) of a signed integer that derives from a
+    Starlark value / native argument"""
+    n = 0
+    inv = []
+    for f in F.fns.values():
+        if f.crate != "starlark":
+            continue
+        for b, t in f.terms.items():
+            if t[0] != "assert" or not t[2].startswith("OverflowNeg") or b in f.cleanup:
+                continue
+            n += 1
+            os_ = origins(f, t[2])
+            src = [o for o in os_ if (o[0] == "call" and VALUE_SRC.search(o[1].name))]
+            tf = top_fn(F, f)
+            is_value_fn = bool(re.search(r"as values::traits::StarlarkValue<'v>>::|__starlark_invoke_impl", tf.qpath))
+            if src or (is_value_fn and any(o[0] == "param" for o in os_)):
+                ctx.bad("C07.R7", "negation:" + short_fn(tf.qpath),
+                        "`-x` on a signed integer derived from a Starlark value (%s): for x = MIN the negation "
+                        "overflows and panics in builds with overflow checks (use unsigned_abs/checked_neg)"
+                        % (src[0][1].name if src else "parameter"), fn=f, line=int(t[3].split("=")[1]))
+            else:
+                inv.append(tf.qpath)
+                ctx.ok("C07.R7", "negation-not-value-derived:" + short_fn(tf.qpath),
+                       "operand is layout/profile arithmetic, not a Starlark value")
+    ctx.info["overflow_neg_asserts"] = n
+    ctx.floor("C07.R7", "overflow-checked negations inspected", n, 5)
+
+
 def r6_writer(ctx, F):
     for name in ("alloc_slot", "alloc_slots", "alloc_slots_for_exprs"):
         f = F.one(r"starlark::eval::bc::writer::BcWriter::<'f>::%s$" % name)
@@ -258,4 +373,6 @@ def run(ctx):
     r2_recursion(ctx, F)
     r3_errors(ctx, F)
     r4_borrows(ctx, F)
+    r4b_live_borrow(ctx, F)
     r6_writer(ctx, F)
+    r7_negation(ctx, F)
